@@ -115,6 +115,7 @@ def run(ctx):
     every = 6 if ctx.tier == 'quick' else 1
     cases += [c for c in codec.tag_grid_cases(ctx) if no_implicit(c.T) and homogeneous(c.T)]
     cases += codec.set_order_grid_cases(ctx, every=every, universal_only=True)
+    cases += codec.mixed_form_sibling_cases(ctx)   # round 7: long and short strings under the same explicit tags
     exprs, meta = [], []
     for c in cases:
         der = I.run_encode('DER', c.obj)
